@@ -14,8 +14,9 @@ THEOREMS = [
     "C03_stop_rule",
     "C03_no_threshold",
     "C03_stopIndex_spec",
+    "C03_mstep_matches_moments",
 ]
-CORR_OPS = ["gmm_mstep_ml:fit1", "gmm_mstep_ml:m_step", "em_stop:numpy", "em_stop:dask", "em_stop:refit"]
+CORR_OPS = ["gmm_mstep_ml:fit1", "gmm_mstep_ml:m_step", "gmm_mstep_ml:moments", "em_stop:numpy", "em_stop:dask", "em_stop:refit"]
 RULE = ("K: (machine, data or synthetic statistics, 8 switch combinations, count/variance floors sometimes active) -> one M-step; "
         "O: recorded criterion trajectories of real fits (NumPy and Dask) x thresholds (None, 0, exactly an observed relative change "
         "and its two float neighbours, values 1e-6 away) x iteration caps; distinct = hash of inputs; non-trivial = >= 2 components "
@@ -128,6 +129,19 @@ def corr_mstep(ctx, bad):
                 old = {"w": model["w"], "m": model["m"], "v": core.dec(o["v_old"]) if sc["uv"] else model["v"]}
                 d["matches_pre_D4_formula"] = params_close(old, res)
             bad.append(d)
+        # C03_mstep_matches_moments on the code: one real iteration with weights and means updated and no count floor active leaves a
+        # mixture whose mean is the sample mean; with the variances updated and no floor clamping, whose second moment is the sample's
+        if mode == "fit1" and sc["um"] and sc["uw"] and not isinstance(res, core.ImplError) and np.all(np.asarray(st.n) >= sc["thr"]):
+            xf = np.asarray(sc["x"], dtype=np.float64)
+            rw, rm, rv = (np.asarray(res[k], dtype=np.float64) for k in ("w", "m", "v"))
+            ctx.count("moments:first")
+            ok = np.all(np.abs(rw @ rm - xf.mean(axis=0)) <= 1e-8 * (np.abs(xf).mean(axis=0) + 1e-300))
+            if ok and sc["uv"] and np.all(rv > np.asarray(sc["floor"]) * (1 + 1e-9)):
+                ctx.count("moments:second")
+                ok = np.all(np.abs(rw @ (rv + rm * rm) - (xf * xf).mean(axis=0)) <= 1e-8 * ((xf * xf).mean(axis=0) + 1e-300))
+            if not ok:
+                bad.append({"op": "gmm_mstep_ml:moments", "input": {**{k: sc[k] for k in ("w", "m", "v", "x", "um", "uv", "uw", "thr", "floor")}, "stats": gen.stats_impl(st)},
+                            "impl": res})
 
 
 class Recorder:
